@@ -5,7 +5,7 @@
 //!      newline) are interpreted faithfully (three-zone oracle);
 //!  (3) volume and interleaving: Promela model explored by spin + conformance grid on the real code.
 
-use crate::checks::c15::FAKE_SAT;
+use crate::checks::c15::fake_sat;
 use crate::choicesat::catch;
 use crate::dimacs::{parse_reply_strict, StrictReply};
 use crate::refmodel::{Graph, RefAnswers};
@@ -21,13 +21,13 @@ use std::collections::BTreeMap;
 use std::path::PathBuf;
 
 pub fn scratch_dir(name: &str) -> PathBuf {
-    let d = PathBuf::from("/verif/target/scratch").join(name);
+    let d = PathBuf::from(std::env::var("CVX_TARGET_DIR").unwrap_or_else(|_| format!("{}/target", crate::report::verif_dir()))).join("scratch").join(name);
     let _ = std::fs::create_dir_all(&d);
     d
 }
 
 pub fn external_factory(opts: Vec<String>) -> Box<SatSolverFactoryFn> {
-    Box::new(move || Box::new(ExternalSatSolver::new(FAKE_SAT.to_string(), opts.clone())))
+    Box::new(move || Box::new(ExternalSatSolver::new(fake_sat().to_string(), opts.clone())))
 }
 
 #[derive(Default)]
@@ -222,7 +222,7 @@ pub enum ReplyObs {
 pub fn feed_reply(reply: &[u8]) -> ReplyObs {
     let hex: String = reply.iter().map(|b| format!("{:02x}", b)).collect();
     let r = catch(|| {
-        let mut s = ExternalSatSolver::new(FAKE_SAT.to_string(), vec![format!("replyhex={}", hex)]);
+        let mut s = ExternalSatSolver::new(fake_sat().to_string(), vec![format!("replyhex={}", hex)]);
         s.add_clause(vec![Literal::from(1isize), Literal::from(2isize)]);
         match s.solve() {
             SolvingResult::Satisfiable(m) => ReplyObs::Sat(vec![m.value_of(1usize), m.value_of(2usize)]),
@@ -344,8 +344,8 @@ pub fn graphs_for_external(thorough: bool) -> Vec<(String, Graph)> {
 pub fn run(tier: Tier) -> i32 {
     let mut rep = Report::new("C16", tier);
     let thorough = tier == Tier::Thorough;
-    if !std::path::Path::new(FAKE_SAT).exists() {
-        rep.machinery_errors.push(format!("{} not built", FAKE_SAT));
+    if !std::path::Path::new(fake_sat()).exists() {
+        rep.machinery_errors.push(format!("{} not built", fake_sat()));
         return rep.finish();
     }
     // (1) instances
